@@ -417,12 +417,24 @@ func c21Lengths() *explore.Scenario {
 func c21Corruption(thorough bool) *explore.Scenario {
 	encs := c21Encoders()
 	base := []encoder{encs[3], encs[12+9], encs[len(encs)-1]} // zlib level1/flush0, brotli q5/lgwin10/flush0, zstd EncodeAll
+	// + encodings whose payload is carried verbatim and is protected only by the stream's own
+	// checksum: zlib with stored blocks (Adler-32 trailer), zstd with raw blocks and a frame CRC
+	base = append(base, encoder{"zlib/stored", algZlib, func(in []byte) []byte {
+		var b bytes.Buffer
+		w, _ := zlib.NewWriterLevel(&b, zlib.NoCompression)
+		w.Write(in)
+		w.Close()
+		return b.Bytes()
+	}}, encoder{"zstd/fastest+crc", algZstd, func(in []byte) []byte {
+		w, _ := zstd.NewWriter(nil, zstd.WithEncoderLevel(zstd.SpeedFastest), zstd.WithEncoderCRC(true))
+		return w.EncodeAll(in, nil)
+	}})
 	return &explore.Scenario{
 		Name: "every-byte-corruption-and-truncation", Watchdog: 60 * time.Second, HangSig: "C21|hang",
 		Run: func(x *explore.X) (r explore.Result) {
 			e := base[x.Choose("encoder", len(base))]
 			mode := x.Choose("mode", 2) // 0 xor 0xff at pos, 1 truncate at pos
-			pos := x.Choose("pos", 700)
+			pos := x.Choose("pos", 900)
 			applied := false
 			cs := c21Case{certName: "small", enc: e, advert: []tls.CertCompressionAlgo{tls.CertCompressionAlgo(e.alg)}, declared: func(n int) int { return n }, expect: "error-or-identical",
 				mutate: func(c []byte) []byte {
@@ -525,7 +537,7 @@ func c21Scenarios(thorough bool) []*explore.Scenario {
 func init() {
 	register(&Prop{ID: "C21", Level: "exploration", Variant: "A", Scenarios: c21Scenarios,
 		Run: func(c *explore.Check, thorough bool) {
-			c.Rule = "the server's Certificate message is replaced (verif hook, before it enters the server transcript) by a CompressedCertificate: every encoder structure of a finite menu (zlib 4 levels, brotli 3 qualities x 2 windows, zstd 3 levels x 2 windows + EncodeAll, each x flush {never, every 7 B, every 512 B}) x certificate message size {1 cert, 3-cert chain, 60 KiB, 250 KiB} x advertised list {only that algorithm, two, all three} (and, for the small certificate, with a CertificateRequest preceding it) must be recovered exactly; declared length {-1,-100,0,+1,+100,2^24-1}, unadvertised algorithm, algorithm replaced in the extension object after the first build, and extension-removed-after-build must be refused (bad_certificate); every byte XOR 0xff and every truncation of the compressed stream of the small certificate must be refused or decode to the identical certificates; parrots that advertise compression x each algorithm. distinct = case"
+			c.Rule = "the server's Certificate message is replaced (verif hook, before it enters the server transcript) by a CompressedCertificate: every encoder structure of a finite menu (zlib 4 levels, brotli 3 qualities x 2 windows, zstd 3 levels x 2 windows + EncodeAll, each x flush {never, every 7 B, every 512 B}) x certificate message size {1 cert, 3-cert chain, 60 KiB, 250 KiB} x advertised list {only that algorithm, two, all three} (and, for the small certificate, with a CertificateRequest preceding it) must be recovered exactly; declared length {-1,-100,0,+1,+100,2^24-1}, unadvertised algorithm, algorithm replaced in the extension object after the first build, and extension-removed-after-build must be refused (bad_certificate); every byte XOR 0xff and every truncation of the compressed stream of the small certificate (5 encodings incl. zlib stored blocks and zstd raw blocks with a frame checksum, where only the stream's own checksum notices) must be refused or decode to the identical certificates; parrots that advertise compression x each algorithm. distinct = case"
 			c.Assumptions = []string{"encoders: compress/zlib, andybalholm/brotli, klauspost/compress/zstd from the module cache", "the hook position keeps client and server transcripts in agreement (both hash the CompressedCertificate message)"}
 			runAll(c, c21Scenarios(thorough), 0)
 			c.Gate(c.Total.Counters["recovered_exactly"] > 50, "non-vacuity: %d exact recoveries", c.Total.Counters["recovered_exactly"])
